@@ -622,7 +622,7 @@ func (h *harness) runCase(o opDef, rel relation) {
 		fail("destination-missing")
 		okAll = false
 	case ref == nil:
-		fail("harness-no-reference-output")
+		fail("reference-run-produced-no-output")
 		okAll = false
 	case !sameOutput(got, ref):
 		fail("destination-not-the-complete-output")
